@@ -25,7 +25,18 @@ namespace vh {
 
 struct Rng {
   uint64_t s;
-  explicit Rng(uint64_t seed) : s(seed * 0x9E3779B97F4A7C15ULL + 0x1234567ULL) {}
+  // the seed is hashed (two splitmix rounds of a different stream) so that seeds n and n+1 do not land on
+  // the same splitmix orbit one step apart
+  explicit Rng(uint64_t seed) : s(0) {
+    uint64_t z = seed + 0x632BE59BD9B4E019ULL;
+    for (int i = 0; i < 2; ++i) {
+      z = (z ^ (z >> 30)) * 0xBF58476D1CE4E5B9ULL;
+      z = (z ^ (z >> 27)) * 0x94D049BB133111EBULL;
+      z ^= (z >> 31);
+      z += 0xD1B54A32D192ED03ULL;
+    }
+    s = z;
+  }
   uint64_t next() {  // splitmix64
     uint64_t z = (s += 0x9E3779B97F4A7C15ULL);
     z = (z ^ (z >> 30)) * 0xBF58476D1CE4E5B9ULL;
@@ -100,6 +111,7 @@ struct Runner {
   std::vector<std::string> samples;
   std::map<std::string, uint64_t> extra;  // harness-specific counters
   Harness *h = nullptr;
+  bool flush_ops = false;  // set by harnesses whose code under test may abort (sanitizer) inside exec
 
   void parse(int argc, char **argv) {
     for (int i = 1; i < argc; ++i) {
@@ -131,8 +143,10 @@ struct Runner {
     uint64_t hh = fnv(c.kind);
     for (const std::string &op : c.ops) {
       ++n_ops;
-      std::string r = h->exec(split_ws(op));
+      // the op line is written (and flushed) BEFORE exec so that a crash inside exec still leaves the input
       fputs(op.c_str(), f_ops); fputc('\n', f_ops);
+      if (flush_ops) fflush(f_ops);
+      std::string r = h->exec(split_ws(op));
       fputs(r.c_str(), f_impl); fputc('\n', f_impl);
       results.push_back(r);
       hh = fnv(op, hh);
